@@ -1121,7 +1121,7 @@ def work(item):
 
 PARAMS = {
     'quick': dict(sched_curves={(34, 3): ('UnitSquare', ), (25, 4): ('Circle', ), (20, 5): ('LShape', ), (17, 6): ('UnitSquare', )},
-                  extra=((6, 17, 1), (3, 34, 1), (2, 50, 1)), twice_mod=4, y_mod=3, batch=24,
+                  extra=((6, 17, 1), (3, 34, 1), (2, 50, 1)), twice_mod=5, y_mod=4, batch=24,
                   lin_curves=('UnitSquare', ), lin_cpus=lambda N: list(range(1, N + 1)), npoly=3, est_curves=('UnitSquare', ),
                   crash_mat=(('UnitSquare', 34, 3), ), crash_vec=(('UnitSquare', 6), ), hist_depth=3, selftest_pools=120),
     'thorough': dict(sched_curves={s: PATH_CURVES for s in SCHED_SHAPES},
@@ -1157,7 +1157,7 @@ def run(ctx):
             for cpu in range(1, 17):
                 probes.append({'w': 'probe', 'curve': c, 'mesh': SCHED_MESH, 'N': N, 'M': M, 'cpu': cpu})
     for (N, M, cpu) in P['extra']:
-        probes.append({'w': 'probe', 'curve': 'UnitSquare', 'mesh': SCHED_MESH, 'N': N, 'M': M, 'cpu': cpu})
+        probes.append({'w': 'probe', 'curve': 'UnitSquare', 'mesh': SCHED_MESH, 'N': N, 'M': M, 'cpu': cpu, 'extra': True})
     if not lin_broken:
         for c in P['lin_curves']:
             for N in (3, 4, 5, 6):
@@ -1196,7 +1196,9 @@ def run(ctx):
             not_enumerated.append({'case': key, 'partitions': total})
             continue
         sched_total[key] = total
-        for lo, hi in split_ranges(total, P['batch']):
+        if pr.get('extra') and total > 1000:  # the large multi-item-chunk case: all schedules once, reruns on a subset
+            base.update(twice_mod=16, y_mod=16)
+        for lo, hi in split_ranges(total, P['batch'] * (4 if total > 1000 else 1)):
             items.append(dict(base, nchunks=nchunks, nworkers=nworkers, lo=lo, hi=hi))
     # ---- paths
     for c in PATH_CURVES:
@@ -1290,8 +1292,12 @@ def run(ctx):
 
     # ---- vacuity guards
     def need(cond, msg):
-        if not cond:
-            raise HarnessError('vacuous clause: ' + msg)
+        if cond:
+            return
+        if ctx.n_viol > 0:  # the verdict is already 'violated'; a clause the defect made unreachable is only noted
+            ctx.note('not covered because of the reported violations: ' + msg)
+            return
+        raise HarnessError('vacuous clause: ' + msg)
 
     controlled = not uncontrolled_cases
     need(agg.get('paths/bilform_matrix', {}).get('calls', 0) > 0 if 'paths/bilform_matrix' in agg else agg.get('paths', {}).get('calls', 0) > 0,
@@ -1301,7 +1307,7 @@ def run(ctx):
     need(any(k.startswith('nested') for k in path_classes) and any(k.startswith('seam') for k in path_classes)
          and any(k.endswith('acausal') for k in path_classes), 'path lists lack nested / seam / acausal pairs')
     sb = agg.get('schedule/bilform_matrix', {})
-    need(sb.get('schedules', 0) > 0, 'no bilform_matrix schedule ran')
+    need(sb.get('schedules', 0) > 0, 'no bilform_matrix schedule ran (the call creates no single controlled pool)')
     if controlled:
         need(sb.get('chunks_on_used_worker', 0) > 0 and sb.get('chunks_on_fresh_worker', 0) > 0, 'no chunk ran on a used / fresh worker')
         need(sb.get('stale_sensitive_triples_min', 0) > 0, 'a schedule list has no early-column / late-column / acausal-row triple')
@@ -1322,10 +1328,10 @@ def run(ctx):
     need(cm.get('calls', 0) > 0 and any(k.startswith('bilform_matrix rejected') for k in scopes), 'no crash point ran')
     for (fn, c), size in crash_sizes.items():
         need(size > 0, 'no stored file for {} on {}'.format(fn, c))
-    need(cm.get('cache_hits_observed', 0) > 0 or ctx.n_viol > 0, 'no cache hit observed for the matrix')
+    need(cm.get('cache_hits_observed', 0) > 0, 'no cache hit observed for the matrix')
     need(hist['states'] > 1 and hist['transitions'] > 0, 'history search explored nothing')
-    need(hist['hits'] > 0 or ctx.n_viol > 0, 'history search never observed a cache hit')
-    need(hist['denied'] > 0 or ctx.n_viol > 0, 'history search never exercised the read-only fault')
+    need(hist['hits'] > 0, 'history search never observed a cache hit')
+    need(hist['denied'] > 0, 'history search never exercised the read-only fault')
 
     for o in sorted(observations):
         ctx.note('observation (outside the decided space): ' + o)
